@@ -803,3 +803,18 @@ Section Composite.
       destruct (Hcl e1 (succ_entry_in _ _ _ E1) Hcl1) as [[]|Ha]. right. left. exact Ha.
   Qed.
 End Composite.
+
+(* a whole run of calls each of which leaves the member set as it finds it changes nothing *)
+Lemma stable_run hash more : forall s, inv hash s ->
+  (forall pre o post, more = pre ++ o :: post ->
+     forall m, In m (nodes (step hash (fold_left (step hash) pre s) o)) <->
+               In m (nodes (fold_left (step hash) pre s))) ->
+  fold_left (step hash) more s = s.
+Proof.
+  induction more as [|o more IH]; intros s Hi H; [reflexivity|].
+  cbn [fold_left].
+  assert (Ho : step hash s o = s) by (apply stable; [exact Hi | apply (H [] o more eq_refl)]).
+  rewrite Ho. apply IH; [exact Hi|].
+  intros pre o' post E m. specialize (H (o :: pre) o' post). cbn [app fold_left] in H.
+  rewrite Ho in H. apply H. rewrite E. reflexivity.
+Qed.
